@@ -215,12 +215,15 @@ def deep_specs(prop, tier, modes=(0,)):
         ('L->L a | a', lambda n: b'a' * n, 3 * n1),
         ('S->eps | E F G ( S )\nE->eps\nF->eps\nG->eps', lambda n: b'(' * n + b')' * n, 20000 if q else 60000),
         ('E->T + E | T\nT->i | ( E )', lambda n: b'i+' * n + b'(i+i)', n1),
+        # a reduction at every stack depth (unit level under right recursion), lengths around the growth steps of the value stack
+        ('L->I L | I\nI->a', lambda n: b'a' * n, 1024), ('L->I L | I\nI->a', lambda n: b'a' * n, 2049), ('L->I s L | I\nI->a | b I', lambda n: b'as' * n + b'ba', 1023),
+        ('L->I L | I\nI->a', lambda n: b'a' * n, 4097 if q else 70001),
     ]
     specs = []
     for i, (spec, mk, n) in enumerate(cases):
         g = simple(spec); g.note = 'deep'
         if i % 2 == 1: g = gg.decorate(g, rnd, strings=0, typed=0.5)
-        inputs = [mk(n), mk(n)[:-1], mk(7)]
+        inputs = [mk(n), mk(n)[:-1], mk(7), mk(max(1, n - 1)), mk(n + 1), mk(n // 2 + 1)]
         specs.append({'prop': prop, 'grammars': [g.to_json()], 'seed': 1, 'flavour': 'clang1', 'cfg': {'modes': list(modes), 'timeout': 900},
                       'explicit_inputs': [[d.hex() for d in inputs]]})
     return specs
@@ -307,6 +310,7 @@ def c14(tier):
     cfg = {'modes': [0], 'exh_cap': 150 if q else 400, 'exh_len': 5, 'n_rand': 40, 'n_mut': 80, 'long': (30, 200) if q else (100, 2000)}
     gs = gen_grammars('C14', tier, 160 if q else 2000, 'values') + gen_grammars('C14r', tier, 96 if q else 1000, 'recovery')
     merge(ck, run_pipeline('C14', tier, gs, cfg, flavour='asan' if not q else 'clang'))
+    merge(ck, common.pmap(pipeline.worker, deep_specs('C14', tier)))
     ck.cov['rule'] = ('grammars with tracked value types (copyable and move-only), typed terms, default functors and error rules; every value gets a unique id in a registry; '
                       'after each parse (success, failure, recovery) the registry must balance: no object or payload alive, no library-made copy, no id consumed twice, '
                       'no moved-from argument; distinct_nontrivial = distinct (grammar,input) runs that created >= 2 values')
